@@ -166,7 +166,7 @@ Reply(s, w, a) ==
   LET hev  == HEv("reply", s, w, a)
       r    == c.r[s]
       \* the identifier the peer answers with (harness/keepalive/system.go, op "reply")
-      raw0 == IF c.wl[s] >= 0 THEN c.wl[s] ELSE IF Mgr /\ r.on /\ r.pend THEN r.pid ELSE -1
+      raw0 == IF c.wl[s] >= 0 THEN c.wl[s] ELSE IF Mgr /\ r.on /\ r.pend THEN r.pid ELSE IF Mgr THEN 0 ELSE c.idc[s]
       raw  == IF w # "stale" THEN raw0
               ELSE IF c.wp[s] >= 0 /\ c.wp[s] # raw0 THEN c.wp[s] ELSE (raw0 + 100) % 256
       ra   == IF a = 1 /\ r.on THEN [r EXCEPT !.idle = 0] ELSE r
@@ -175,9 +175,7 @@ Reply(s, w, a) ==
               ELSE ra
       c2   == [c EXCEPT !.r[s] = rb]
       st   == IF Mgr /\ hit THEN [ZeroSt EXCEPT !.rep = 1] ELSE ZeroSt
-  IN IF raw0 < 0
-       THEN Take(hev, Quiet(hev, FALSE, 0, -1, FALSE, c), c)
-       ELSE Take(hev, Edge(hev, TRUE, 0, Rel(raw, c.idc[s]), w = "loop", c2, Zero, Zero, None, <<>>, st), c2)
+  IN Take(hev, Edge(hev, TRUE, 0, Rel(raw, c.idc[s]), w = "loop", c2, Zero, Zero, None, <<>>, st), c2)
 
 Start ==
   LET hev == HEv("start", 0, "", 0)
